@@ -360,27 +360,33 @@ def concat(x, dim):
     u = x[0].unit
     for v in x:
         if v.unit != u:
-            raise UnitError('concat: units differ')
+            raise UnitError(f'concat: units differ: {u} vs {v.unit}')
     dt = x[0].dtype
-    parts = []
-    if dim in x[0].dims:
-        dims = x[0].dims
+    for v in x:
+        if v.dtype != dt:
+            raise DTypeError(f'concat: dtypes differ: {dt} vs {v.dtype}')
+    ref = next((v for v in x if dim in v.dims), None)
+    if ref is not None:
+        dims = ref.dims
         ax = dims.index(dim)
+        parts = []
+        vparts = []
         for v in x:
             if dim in v.dims:
-                parts.append(v.transpose(dims)._a if v.dims != dims else v._a)
+                vv = v.transpose(dims) if v.dims != dims else v
+                parts.append(vv._a)
+                vparts.append(vv._v)
             else:
-                parts.append(np.expand_dims(v._a, ax))
+                other = tuple(d for d in dims if d != dim)
+                vv = V._broadcast_to(v, other, tuple(ref.sizes[d] for d in other)) if other else v
+                parts.append(np.expand_dims(vv._a, ax))
+                vparts.append(None if vv._v is None else np.expand_dims(vv._v, ax))
         arr = np.concatenate(parts, axis=ax)
+        var = np.concatenate(vparts, axis=ax) if x[0]._v is not None else None
     else:
         dims = (dim, *x[0].dims)
-        arr = np.stack([v._a for v in x], axis=0) if x[0]._a.ndim or True else None
-    var = None
-    if x[0]._v is not None:
-        if dim in x[0].dims:
-            var = np.concatenate([v._v if dim in v.dims else np.expand_dims(v._v, ax) for v in x], axis=ax)
-        else:
-            var = np.stack([v._v for v in x], axis=0)
+        arr = np.stack([v._a for v in x], axis=0)
+        var = np.stack([v._v for v in x], axis=0) if x[0]._v is not None else None
     return Variable(_arr=arr, _var=var, dims=dims, unit=u, dtype=dt, _rnd=x[0]._rnd)
 
 
@@ -537,6 +543,36 @@ class Coords(dict):
         return False
 
 
+class _DABins:
+    """`.bins` of a DataArray with binned data."""
+
+    def __init__(self, da):
+        self._da = da
+        self._b = da.data.bins
+
+    unit = property(lambda s: s._b.unit)
+    constituents = property(lambda s: s._b.constituents)
+    coords = property(lambda s: s._b.coords)
+
+    def _wrap(self, v):
+        return DataArray(v, coords=dict(self._da.coords), masks=dict(self._da.masks), name=self._da.name)
+
+    def size(self):
+        return self._wrap(self._b.size())
+
+    def sum(self):
+        return self._wrap(self._b.sum())
+
+    def mean(self):
+        return self._wrap(self._b.mean())
+
+    def min(self):
+        return self._wrap(self._b.min())
+
+    def max(self):
+        return self._wrap(self._b.max())
+
+
 class DataArray:
     def __init__(self, data, *, coords=None, masks=None, name=''):
         self.data = data
@@ -551,9 +587,13 @@ class DataArray:
     dim = property(lambda s: s.data.dim)
     unit = property(lambda s: s.data.unit)
     dtype = property(lambda s: s.data.dtype)
-    bins = property(lambda s: s.data.bins)
     values = property(lambda s: s.data.values)
     variances = property(lambda s: s.data.variances)
+    value = property(lambda s: s.data.value)
+
+    @property
+    def bins(self):
+        return None if self.data.bins is None else _DABins(self)
 
     def copy(self, deep=True):
         if not deep:
@@ -562,7 +602,12 @@ class DataArray:
                          masks={k: v.copy() for k, v in self.masks.items()}, name=self.name)
 
     def __getitem__(self, key):
-        dim, idx = key if isinstance(key, tuple) else (self.data.dim, key)
+        if isinstance(key, Variable) and key.dtype == DType.bool:
+            dim, idx = key.dims[0], key
+        elif isinstance(key, tuple):
+            dim, idx = key
+        else:
+            dim, idx = self.data.dim, key
         coords = {}
         for k, c in self.coords.items():
             if dim in c.dims:
@@ -578,6 +623,46 @@ class DataArray:
 
     def __len__(self):
         return len(self.data)
+
+    def __iter__(self):
+        for i in range(len(self.data)):
+            yield self[self.data.dims[0], i]
+
+    def rename_dims(self, d=None, **kw):
+        m = {**(d or {}), **kw}
+        return DataArray(self.data.rename_dims(m), coords={k: v.rename_dims(m) for k, v in self.coords.items()},
+                         masks={k: v.rename_dims(m) for k, v in self.masks.items()}, name=self.name)
+
+    def group(self, *labels):
+        from .bins import make_binned
+
+        if len(labels) != 1 or not isinstance(labels[0], str) or self.data.ndim != 1:
+            raise C.Unsupported('group: only one label on 1-d data')
+        label = labels[0]
+        key = self.coords[label]
+        dim = self.data.dims[0]
+        ids = []
+        for e in key._a.flat:
+            if not (isinstance(e, R) and e.is_const()):
+                raise C.Unsupported('group key must be concrete on each path')
+            ids.append(int(e.const_value()))
+        uniq = sorted(set(ids))
+        contents = []
+        for u in uniq:
+            keep = [i for i, x in enumerate(ids) if x == u]
+            mask = Variable(dims=(dim,), values=[i in keep for i in range(len(ids))])
+            sub = self[mask]
+            del sub.coords[label]
+            contents.append(sub)
+        data = make_binned(contents, (label,), (len(uniq),))
+        return DataArray(data, coords={label: Variable(dims=(label,), values=uniq, dtype=key.dtype, unit=key.unit)}, name=self.name)
+
+    def __sub__(self, o):
+        return DataArray(self.data - (o.data if isinstance(o, DataArray) else o), coords=dict(self.coords), masks=dict(self.masks))
+
+    def __isub__(self, o):
+        self.data -= (o.data if isinstance(o, DataArray) else o)
+        return self
 
 
 class DataGroup(dict):
